@@ -2,13 +2,14 @@
 (* Structured constants of the exhaustive / generation models of CipherList (records cannot be written in a .cfg). *)
 EXTENDS CipherList
 
+\* name 99 = the key configured WITHOUT an id (its ID is the empty string): just another key
 K(n, c, s) == [name |-> n, cls |-> c, sec |-> s]
 V(c, s)    == [kind |-> "valid", cls |-> c, sec |-> s]
 B(k, c, s) == [kind |-> k, cls |-> c, sec |-> s]
 
 (* Q: mixed classes; secret 1 under two classes; the key (chacha, secret 1) under two ids (names 1 and 4);
    name 1 re-keyed by the second list; a one-entry list *)
-ShapesQ  == { << K(1, 1, 1), K(2, 2, 1), K(3, 3, 2), K(4, 1, 1) >>,
+ShapesQ  == { << K(1, 1, 1), K(2, 2, 1), K(99, 3, 2), K(4, 1, 1) >>,
               << K(1, 4, 2), K(5, 3, 2) >>,
               << K(2, 2, 1) >> }
 OpenersQ == { V(1, 1), V(3, 2), V(4, 2), B("bad", 1, 1) }
@@ -27,7 +28,7 @@ OpenersG == { V(1, 1), V(2, 1), V(3, 2), V(4, 2), V(4, 3), V(3, 3), V(2, 3), V(1
               B("fliptag", 4, 2), B("flipsalt", 2, 3), B("fliplen", 3, 3), B("short", 3, 2), B("short", 4, 3),
               B("stall", 1, 1) }
 \* MRU / last-client-IP histories: only keys that are in the lists, many lookups
-ShapesH  == { << K(1, 1, 1), K(2, 2, 1), K(3, 3, 2), K(4, 1, 1) >>, << K(6, 4, 3), K(7, 3, 3), K(8, 2, 3), K(9, 4, 3) >>,
+ShapesH  == { << K(1, 1, 1), K(2, 2, 1), K(99, 3, 2), K(4, 1, 1) >>, << K(6, 4, 3), K(7, 3, 3), K(8, 2, 3), K(9, 4, 3) >>,
               << K(1, 4, 3), K(5, 3, 2), K(2, 2, 1) >> }
 OpenersH == { V(1, 1), V(2, 1), V(3, 2), V(4, 3), V(3, 3), V(2, 3) }
 ===============================================================================
